@@ -1,5 +1,5 @@
 (* Codec/Props_codec.v — property theorems of the codec area (statement + `exact lemma` only). *)
-From FlacCodec Require Import Parser_proofs Wf Spec Roundtrip_sub Roundtrip_hdr Roundtrip_frame Agree_frame Totality Progress Stream EncChoice Damage Prefix Interrupted Inverse Inverse_frame StreamRd StreamRd_proofs Lengths ParseWf Admissible DecLengths.
+From FlacCodec Require Import Parser_proofs Wf Spec Roundtrip_sub Roundtrip_hdr Roundtrip_frame Agree_frame Totality Progress Stream EncChoice Damage Prefix Interrupted Inverse Inverse_frame StreamRd StreamRd_proofs Lengths ParseWf Admissible DecLengths MustReject.
 From FlacBase Require Import Crc.
 Open Scope N_scope.
 
@@ -160,6 +160,22 @@ Theorem C05_flipped_frame_rejected : forall si chk bytes h c rest i k h' c' rest
   (i < length bytes - length rest)%nat -> k < 8 ->
   dec_frame si chk (flip16 bytes i k) = Ok (h', c', rest') -> length rest' <> length rest.
 Proof. exact flipped_frame_not_same_length. Qed.
+
+(* C05(e): must-reject classes — reserved / illegal codes are refused whatever else the frame contains *)
+Theorem C05_reject_block_size_code_0 : forall si strategy r,
+  parse_header_fields si (wr 15 SYNC_CODE ++ [strategy] ++ wr 4 0 ++ r) = Err EBlockSize.
+Proof. exact reject_block_size_code_0. Qed.
+Theorem C05_reject_rate_code_15 : forall si strategy bs_code r, bs_code < 16 -> bs_code <> 0 ->
+  parse_header_fields si (wr 15 SYNC_CODE ++ [strategy] ++ wr 4 bs_code ++ wr 4 15 ++ r) = Err ESampleRate.
+Proof. exact reject_rate_code_15. Qed.
+Theorem C05_reject_reserved_subframe_type : forall t r, t < 64 -> t <> 0 -> t <> 1 -> (t < 8 \/ (12 < t /\ t < 32)) ->
+  p_subframe_header (false :: wr 6 t ++ r) = Err ESubframeType.
+Proof. exact reject_reserved_subframe_type. Qed.
+Theorem C05_reject_coding_method : forall order nres m r, 2 <= m -> m < 4 ->
+  dec_residuals order nres (wr 2 m ++ r) = Err ECodingMethod.
+Proof. exact reject_coding_method. Qed.
+Theorem C05_reject_negative_shift : forall v r, 16 <= v -> v < 32 -> p_qlp_shift (wr 5 v ++ r) = Err ENegativeShift.
+Proof. exact reject_negative_shift. Qed.
 
 (* C05(d): a frame the decoder accepts, cut anywhere before its last byte, is an error (end of input),
    never a shorter frame *)
